@@ -96,7 +96,7 @@ LAYERS = {
     # ... and with the connection CUT (plain EOF / error) after 0, 1, 2 more frames, streams open, FINs missing
     "muxc": ("C02_MCMux", "C02_MCMux.cfg",
              dict(MUX0, MaxTotal=2, MaxClose=1, Bufs=S([2]), Cuts=MUX_CUTS, CutPos=S([0, 1])),
-             dict(MUX0, MaxTotal=2, MaxClose=2, Bufs=S([2]), Cuts=MUX_CUTS, CutPos=S([0, 1, 2]))),
+             dict(MUX0, MaxTotal=2, MaxClose=1, Bufs=S([2]), Cuts=MUX_CUTS, CutPos=S([0, 1, 2]))),
     # ... and with (virtual) time passing between the operations
     "muxt": ("C02_MCMux", "C02_MCMux.cfg",
              dict(MUX0, MaxTotal=2, MaxClose=1, Bufs=S([2]), Delays='{"30s", "1h"}'),
@@ -357,6 +357,8 @@ HARNESSES = {
     "tls-start": ("./p2p/security/tls", "^TestVerifC02TLSStart$"),
     "upgrade-start": ("./p2p/net/upgrader", "^TestVerifC02UpgradeStart$"),
     "lazy": ("./p2p/host/basic", "^TestVerifC02LazyMS$"),
+    "lazy-time": ("./p2p/host/basic", "^TestVerifC02LazyTime$"),
+    "mux-time": ("./p2p/muxer/yamux", "^TestVerifC02MuxTime$"),
     "stack": ("./p2p/host/basic", "^TestVerifC02Stack$"),
 }
 
@@ -402,7 +404,7 @@ def _crash_verdict(key, log1, log2):
 
 def _prebuild(args):
     ctx, key = args
-    if key in ("stack", "noise-start", "tls-start"):
+    if key in ("stack", "noise-start", "tls-start", "lazy-time", "mux-time"):
         return key      # same package as another harness
     pkg, _ = HARNESSES[key]
     rc, out = goenv.go_test(_own(ctx, "b-" + key), pkg, "^$", timeout=1200)
@@ -426,11 +428,13 @@ def run(ctx):
         "tls": dict(base, VERIF_C02_ROUNDS=2 if thorough else 1, VERIF_C02_TLS_SHARE=1 if thorough else 4),
         "psk": dict(base, VERIF_C02_ROUNDS=rounds),
         "sampled": dict(base, VERIF_C02_ROUNDS=rounds),
-        "mux": dict(base, VERIF_C02_ROUNDS=2 if thorough else 1, VERIF_C02_MUX_SHARE=1 if thorough else 2),
+        "mux": dict(base, VERIF_C02_ROUNDS=1, VERIF_C02_MUX_SHARE=1 if thorough else 2),
         "noise-start": dict(base, VERIF_C02_ROUNDS=rounds),
         "tls-start": dict(base, VERIF_C02_ROUNDS=rounds),
         "upgrade-start": dict(base, VERIF_C02_ROUNDS=rounds),
         "lazy": dict(base, VERIF_C02_ROUNDS=rounds),
+        "lazy-time": dict(base, VERIF_C02_ROUNDS=1, VERIF_C02_TIME_SHARE=2 if thorough else 4),
+        "mux-time": dict(base, VERIF_C02_ROUNDS=2 if thorough else 1, VERIF_C02_TIME_SHARE=1 if thorough else 2),
         "stack": dict(base, VERIF_C02_ROUNDS=2 if thorough else 1, VERIF_C02_STACK_SHARE=1 if thorough else 2),
     }
     keys = list(HARNESSES)
